@@ -10,8 +10,10 @@ def main():
     ap.add_argument("--replay")
     args = ap.parse_args()
     seed = int(os.environ.get("VERIF_SEED", "20260929"))
-    from . import props_core
-    fams = dict(props_core.FAMILIES)
+    from . import props_core, props_more, props_cache
+    fams = dict(props_core.CHECKS)
+    fams.update(props_more.CHECKS)
+    fams.update(props_cache.CHECKS)
     if args.prop not in fams:
         print(f"unknown property {args.prop}")
         return 2
